@@ -43,9 +43,19 @@ func verifIngestMsg(secret []byte) []byte {
 // was validated and announced, both deliveries are counted, nothing panics or
 // stalls.
 // verif:replay=native-then-model
-// verif:shards=4
+// verif:shards=5
 func VerifC09IngestRace() {
-	scenario := verifnd.Choose("scenario", 4) // sharded: worker x worker, worker x (sweeper x) lookup, worker x worker x sweeper, worker x sweeper
+	scenario := verifnd.Choose("scenario", 5) // sharded: worker x worker, worker x lookup, worker x worker x sweeper, worker x sweeper, (thorough) worker x sweeper x lookup
+	publishYield, withSweeper := true, false
+	if scenario == 4 {
+		if !verifnd.Thorough() {
+			return
+		}
+		// bound (thorough): three threads at the registry lock are explored without the extra
+		// scheduling point at the detector publish (with it: > 100 000 interleavings in 8 minutes,
+		// unfinished); the publish point is explored in the two-thread scenarios of both tiers
+		scenario, publishYield, withSweeper = 1, false, true
+	}
 	if scenario == 2 {
 		// bound: two workers AND the sweeper (three threads at the registry lock) did not finish
 		// in 40 minutes (487 000 interleavings) even without the scheduling point at the probe:
@@ -65,11 +75,15 @@ func VerifC09IngestRace() {
 	// message is out, so that whatever the code lets other goroutines do meanwhile is explored
 	var updBeforeNew int32
 	rm.registeredDecoys.registerForDetector = func(d *DecoyRegistration) {
-		verifnd.Yield()
+		if publishYield {
+			verifnd.Yield()
+		}
 		atomic.AddInt32(&newAnn, 1)
 	}
 	rm.registeredDecoys.updateInDetector = func(d *DecoyRegistration) {
-		verifnd.Yield()
+		if publishYield {
+			verifnd.Yield()
+		}
 		if atomic.LoadInt32(&newAnn) == 0 {
 			atomic.StoreInt32(&updBeforeNew, 1)
 		}
@@ -106,7 +120,7 @@ func VerifC09IngestRace() {
 	if workers == 2 {
 		run(func() { rm.ingestRegistration(r2) })
 	}
-	if scenario == 2 || scenario == 3 || scenario == 1 && verifnd.Thorough() {
+	if scenario == 2 || scenario == 3 || withSweeper {
 		// bound (quick): the sweeper joins worker x lookup only in the thorough tier
 		run(func() { rm.RemoveOldRegistrations() })
 	}
